@@ -1570,6 +1570,148 @@ def sweep_large_requests(ctx: Ctx, out, deep: bool, alpha=None, only=None):
                 out.append(dict(cat="large", err=0.0, tol=1.0, key=key, text="", replay={}))
 
 
+def sweep_robust_valence(ctx: Ctx, out, deep: bool):
+    """Multi-centre robust solves whose Split-1 residual has a positive, fit-able part (core model + valence Gaussians on the atoms):
+    both split options against the analytic potential and against each other; plus the oracle hypothesis on the NNLS fit itself."""
+    from grid.coulomb import load_atomic_gaussian_params
+    rng = ctx.rng
+    confs = [([1, 1], [[0.0, 0.0, 0.0], [10.0, 0.0, 0.0]])]
+    if deep:
+        confs += [([rng.choice([6, 8]), 1], [[0.0, 0.0, 0.0], [0.0, 10.0, 0.0]]), ([1, 1, 1], [[0.0, 0.0, 0.0], [12.0, 0.0, 0.0], [0.0, 0.0, -12.0]])]
+    for ci, (atnums, atoms) in enumerate(confs):
+        case = dict(id=2500 + ci, solver="robust", radial=("becke_gl", 50, 1e-3, 1.5), degree=9, atoms=atoms, atnums=atnums,
+                    bvp=dict(remove_large_pts=40.0, include_origin=False))
+        grid, tf, coords = build_grid(case)
+        nprng = np.random.default_rng([ctx.seed, 2500 + ci])
+        pts = eval_points(dict(box=3.0, min_dist=0.2), coords, nprng, 40)
+        params = [load_atomic_gaussian_params(int(z)) for z in atnums]
+        q = [round(rng.uniform(0.5, 1.0), 2) for _ in coords]
+        a = [round(rng.uniform(0.5, 1.0), 3) for _ in coords]
+        dens = sum(GR._build_core_density(grid.points, c, *p) for c, p in zip(coords, params)) \
+            + sum(qi * s_density(grid.points, c, [1.0], [ai]) for qi, ai, c in zip(q, a, coords))
+        exact = sum(s_potential(pts, c, *p) for c, p in zip(coords, params)) + sum(qi * s_potential(pts, c, [1.0], [ai]) for qi, ai, c in zip(q, a, coords))
+        scale = float(sum(np.sum(np.abs(p[0])) for p in params) + sum(q))
+        res = {}
+        for split2 in (False, True):
+            case["split2"] = split2
+            key = f"robust_valence:atnums={atnums}:q={q}:alpha={a}:split2={split2}:seed={ctx.seed}"
+            try:
+                res[split2] = solve_case(case, grid, tf, dens.copy())(pts.copy())
+            except Exception as e:  # noqa: BLE001
+                out.append(dict(cat="robust", err=1e9, tol=1.0, key=key, text=f"solve_poisson_robust(split2={split2}) raised {type(e).__name__}: {e}; {case_text(case)}",
+                                replay=dict(case=case_text(case), q=q, alpha=a, exception=repr(e))))
+                continue
+            err = np.abs(res[split2] - exact) / scale
+            if split2 and False in res:
+                err = np.maximum(err, np.abs(res[True] - res[False]) / scale)
+            j = int(np.argmax(err))
+            ctx.case(("robust_valence", ci, split2))
+            ctx.count("sweep_robust")
+            out.append(dict(cat="robust", err=float(err[j]), tol=TOL, key=key,
+                            text=f"core model of Z={atnums} + valence Gaussians q={q}, alpha={a} on atoms {atoms}: solve_poisson_robust(split2={split2}) = "
+                                 f"{float(res[split2][j])}, analytic {float(exact[j])}" + (f", split2=False gives {float(res[False][j])}" if split2 and False in res else "")
+                                 + f" at {pts[j].tolist()} (error {float(err[j]):.3e} per unit charge)",
+                            replay=dict(case=case_text(case), q=q, alpha=a, point=pts[j].tolist(), got=float(res[split2][j]), expected=float(exact[j]))))
+        # the fit oracle: (c >= 0, alphas, centres, residual - sum_i c_i g_i) -- only if the helper still has this interface
+        try:
+            resid = sum(qi * s_density(grid.points, c, [1.0], [ai]) for qi, ai, c in zip(q, a, coords))
+            fc, fa, fcen, rout = GR._fit_residual_gaussians(grid.points, resid.copy(), coords.copy(), np.geomspace(0.05, 50.0, 8))
+            fit_rho = sum((c * s_density(grid.points, np.asarray(ce, float), [1.0], [al]) for c, al, ce in zip(fc, fa, fcen)), np.zeros(grid.size))
+            dev = float(np.max(np.abs(rout - (resid - fit_rho))))
+            ok = len(fc) == len(fa) == len(fcen) and np.all(np.asarray(fc) >= 0)
+        except (AttributeError, TypeError, ValueError):
+            continue
+        ctx.case(("fit_oracle", ci))
+        out.append(dict(cat="fit_oracle", err=dev if ok else 1e9, tol=1e-10 * (1 + float(np.max(np.abs(resid)))),
+                        key=f"fit_oracle:atoms={atoms}:q={q}:alpha={a}:seed={ctx.seed}",
+                        text=f"_fit_residual_gaussians on centres {atoms}: the returned residual differs by {dev:.3e} from input - sum_i c_i g(alpha_i, centre_i) "
+                             "built from the returned coefficients, exponents and centres",
+                        replay=dict(atoms=atoms, q=q, alpha=a, deviation=dev)))
+
+
+def sweep_eval_histories(ctx: Ctx, out, deep: bool):
+    """A returned potential is a function of the point COORDINATES: evaluating it on a buffer, changing the buffer in place (shift, refill)
+    and evaluating again must give what a fresh copy of the buffer gives; likewise for views, reversed / strided and Fortran-ordered
+    arrays, and for repeated evaluation of an unchanged array.  Densities are anisotropic about the expansion centre."""
+    rng = ctx.rng
+    center = np.array([0.25, -0.5, 0.125])
+    off = center + np.array([round(rng.uniform(-0.09, 0.09), 3) for _ in range(3)])
+    alpha = round(rng.uniform(0.6, 1.0), 3)
+    tf = BeckeRTransform(1e-3, R=1.5)
+    rad = tf.transform_1d_grid(GaussLegendre(50))
+    ag = AtomGrid(rad, degrees=[7], center=center, rotate=rng.choice([0, 11, 37]))
+    dens = s_density(ag.points, off, [1.0], [alpha])
+    exact = lambda p: s_potential(p, off, [1.0], [alpha])      # noqa: E731
+    kw = dict(remove_large_pts=40.0, include_origin=False)
+    makers = [("solve_poisson_bvp", lambda: GP.solve_poisson_bvp(ag, dens.copy(), InverseRTransform(tf), ode_params={}, **kw), exact, TOL)]
+    if deep:
+        mg = MolGrid(atnums=np.array([1, 1]), atgrids=[AtomGrid(rad, degrees=[7], center=c) for c in (center, center + np.array([10.0, 0, 0]))],
+                     aim_weights=BeckeWeights(order=3), store=True)
+        dens_m = s_density(mg.points, off, [1.0], [alpha])
+        makers += [
+            ("solve_poisson_bvp[MolGrid]", lambda: GP.solve_poisson_bvp(mg, dens_m.copy(), InverseRTransform(tf), ode_params={}, **kw), exact, TOL),
+            ("solve_poisson_ivp", lambda: GP.solve_poisson_ivp(ag, dens.copy(), InverseRTransform(tf), ode_params={},
+                                                               r_interval=(float(rad.points[-1]), float(rad.points[0]))), None, None),
+            ("solve_poisson_robust", lambda: GR.solve_poisson_robust(ag, dens.copy(), InverseRTransform(tf), np.array([1]), center.reshape(1, 3),
+                                                                     ode_params={}, **kw), exact, 2 * TOL),
+            ("interpolate_laplacian", lambda: GP.interpolate_laplacian(ag, s_potential(ag.points, off, [1.0], [alpha])), None, None)]
+    nprng = np.random.default_rng([ctx.seed, 7000])
+
+    def shell(n):
+        d = nprng.normal(size=(n, 3))
+        return center + d / np.linalg.norm(d, axis=1, keepdims=True) * nprng.uniform(0.4, 2.5, size=(n, 1))
+    for name, make, ex, tol in makers:
+        np.random.seed(0)
+        key = f"eval_history:{name}:alpha={alpha}:seed={ctx.seed}"
+        try:
+            V = make()
+            buf = shell(24)
+            steps = [("first evaluation", lambda: buf),
+                     ("same array again", lambda: buf),
+                     ("after `buf[:, 2] += 0.75` in place", lambda: (buf.__setitem__((slice(None), 2), buf[:, 2] + 0.75), buf)[1]),
+                     ("after refilling the buffer `buf[:] = other points`", lambda: (buf.__setitem__(slice(None), shell(24)), buf)[1]),
+                     ("reversed view `buf[::-1]`", lambda: buf[::-1]),
+                     ("strided view `buf[::2]`", lambda: buf[::2]),
+                     ("Fortran-ordered copy", lambda: np.asfortranarray(buf)),
+                     ("column view of a wider array", lambda: np.hstack([np.zeros((len(buf), 1)), buf, np.ones((len(buf), 2))])[:, 1:4])]
+            # the whole history runs first on the caller's objects only (an evaluation on any other array in between could hide state kept
+            # between calls); the references on fresh arrays are computed afterwards
+            trace = []
+            for what, get in steps:
+                arr = get()
+                got = np.asarray(V(arr))
+                trace.append((what, got, np.array(arr, dtype=float, order="C", copy=True)))
+            bad = None
+            for what, got, coords_ in trace:
+                ref = np.asarray(V(coords_.copy()))
+                dv = np.abs(got - ref) if got.shape == ref.shape else np.array([np.inf])
+                j = int(np.argmax(dv))
+                if got.shape != ref.shape or not dv[j] <= 1e-9 * (1 + abs(ref[j])):
+                    bad = (what, float(got.ravel()[min(j, got.size - 1)]), float(ref[j]), coords_[j].tolist(), "the same coordinates in a fresh array")
+                    break
+                if ex is not None:
+                    e_ = ex(coords_)
+                    far = np.linalg.norm(coords_ - center, axis=1) >= 0.4      # the accuracy statement is about points away from the expansion centre
+                    de = np.where(far, np.abs(got - e_), 0.0)
+                    j = int(np.argmax(de))
+                    if not de[j] <= tol:
+                        bad = (what, float(got[j]), float(e_[j]), coords_[j].tolist(), "the analytic potential")
+                        break
+            ctx.case(("eval_history", name))
+            ctx.count("sweep_eval_history")
+        except Exception as e:  # noqa: BLE001
+            out.append(dict(cat="history", err=1e9, tol=1.0, key=key, text=f"{name}: evaluation history raised {type(e).__name__}: {e}", replay=dict(exception=repr(e))))
+            continue
+        if bad is None:
+            out.append(dict(cat="history", err=0.0, tol=1.0, key=key, text="", replay={}))
+        else:
+            what, g, r_, p_, ref_name = bad
+            out.append(dict(cat="history", err=max(abs(g - r_), 1e-3), tol=1e-6, key=key,
+                            text=f"{name}(Gaussian alpha={alpha} at {off.tolist()} on an atomic grid centred at {center.tolist()}): evaluation "
+                                 f"'{what}' returns {g} at {p_}, but {ref_name} gives {r_}",
+                            replay=dict(function=name, step=what, alpha=alpha, gaussian_centre=off.tolist(), grid_centre=center.tolist(), point=p_, got=g, expected=r_)))
+
+
 def sweep_reuse(ctx: Ctx, out, deep: bool, alpha=None, only=None):
     """Histories that pass the SAME array object to several solves: no call may modify the caller's array (byte-wise snapshot) and every result
     is judged against the analytic potential on its own."""
@@ -1736,23 +1878,26 @@ def run(ctx: Ctx):  # noqa: F811
     # large requests and reuse histories: cheap versions always, full versions in thorough or whenever the tie is broken
     deep = (not ctx.quick) or gen_err is not None or any(o["status"] != "discharged" for o in ctx.obligations.values()) \
         or any(f.obligation.startswith("corr_") for f in ctx.failures)
-    for part, cat in ((sweep_reuse, "reuse"), (sweep_large_requests, "large")):
+    for part, cat in ((sweep_reuse, "reuse"), (sweep_eval_histories, "history"), (sweep_robust_valence, "robust"), (sweep_large_requests, "large")):
         try:
             part(ctx, out, deep)
         except Exception as e:  # noqa: BLE001
             out.append(dict(cat=cat, err=1e9, tol=1.0, key=f"{part.__name__}:raised:{type(e).__name__}:tier={ctx.tier}:seed={ctx.seed}",
                             text=f"{part.__name__}: {type(e).__name__}: {e}", replay=dict(exception=repr(e))))
-    phase("large+reuse")
+    phase("large+reuse+histories")
     worst = {}
     for rec in out:
         ctx.cov.setdefault("sweep_max_error_over_tol", {})
         m = ctx.cov["sweep_max_error_over_tol"]
         m[rec["cat"]] = round(max(m.get(rec["cat"], 0.0), rec["err"] / rec["tol"]), 4)
         if not rec["err"] <= rec["tol"]:
+            if ctx.is_known(rec["key"], round(rec["err"], 9)):     # a listed finding is re-derived here and never hides another failing input
+                ctx.fail(f"sweep_{rec['cat']}", rec["key"], round(rec["err"], 9), rec["text"], rec["replay"])
+                continue
             if rec["cat"] not in worst or rec["err"] / rec["tol"] > worst[rec["cat"]]["err"] / worst[rec["cat"]]["tol"]:
                 worst[rec["cat"]] = rec
     # candidates = concrete failing inputs found on the implementation, worst first, known findings excluded
-    ranked = sorted(worst.values(), key=lambda r: -(r["err"] / r["tol"]))
+    ranked = sorted(worst.values(), key=lambda r: (r["cat"] == "fit_oracle", -(r["err"] / r["tol"])))     # public entry points first
     fresh = [r for r in ranked if not ctx.is_known(r["key"], round(r["err"], 9))]
     used = set()
     # tie failures recorded so far have no input of their own: hand them the first fresh failing input as replay
